@@ -371,14 +371,16 @@ func runC07(c *Ctx) {
 						sv = st.Args[i]
 					}
 				}
-				if sv == nil || sv.Op != "mkslice" {
+				copied := false
+				// append(make(S, 0, n), values...) is a fresh copy as well
+				if sv != nil && sv.Op == "builtin" && sv.Sym == "append" && len(sv.Args) == 2 && sv.Args[0].Op == "mkslice" && sv.Args[0].Args[0].IsConst("0") && sv.Args[1].Key() == values.Key() {
+					copied = true
+				} else if sv == nil || sv.Op != "mkslice" {
 					ok, why = false, fmt.Sprintf("on a path the Sorted keeps %s, not a fresh copy of the input (%s)", sv, p.CondString())
 					continue
-				}
-				if !isLenOf(sv.Args[0], values) {
+				} else if !isLenOf(sv.Args[0], values) {
 					ok, why = false, "the fresh slice does not have the input's length"
 				}
-				copied := false
 				var sortCall *Event
 				for i := range p.Events {
 					e := &p.Events[i]
@@ -392,7 +394,7 @@ func runC07(c *Ctx) {
 					if e.Kind == "store" && rootOf(e.Addr).Key() == values.Key() {
 						ok, why = false, "writes the caller's slice"
 					}
-					if e.Kind == "call" && e.Name != "builtin.copy" && e.Name != "builtin.len" {
+					if e.Kind == "call" && e.Name != "builtin.copy" && e.Name != "builtin.len" && e.Name != "builtin.append" {
 						for _, a := range e.Args {
 							if a != nil && stripIface(a).Key() == values.Key() {
 								ok, why = false, "passes the caller's slice to "+e.Name+" (reorders or keeps it)"
@@ -613,7 +615,20 @@ func runC07(c *Ctx) {
 				muts := eventsOf(p, func(e *Event) bool { return e.Kind == "store" && rootOf(e.Addr).Op != "alloc" })
 				if len(rms) == 0 {
 					sawNo = true
-					if !p.Rets[0].IsConst("-1") || len(muts) > 0 {
+					isMinus1 := p.Rets[0].IsConst("-1")
+					if !isMinus1 {
+						// a value known to be -1 on this path
+						for _, cd := range p.Conds {
+							if pl, kind, okk := cd.Rel().IntNorm(); okk && kind == "=" && pl.Equal(canonSign(ToPoly(p.Rets[0]).Add(polyConst(1), 1))) {
+								isMinus1 = true
+							}
+							// r < 0 together with r >= -1 (Index never returns less than -1) is also -1
+							if pl, kind, okk := cd.Rel().IntNorm(); okk && kind == ">" && pl.Equal(polyConst(0).Add(ToPoly(p.Rets[0]), -1)) && p.Rets[0].Op == "call" && strings.HasSuffix(p.Rets[0].Sym, ".Index") {
+								isMinus1 = true
+							}
+						}
+					}
+					if !isMinus1 || len(muts) > 0 {
 						ok, why = false, "the path that removes nothing does not return -1 with the contents untouched"
 					}
 					continue
@@ -697,7 +712,14 @@ func runC07(c *Ctx) {
 			ok := len(ps) == 1 && len(ps[0].Rets) == 1
 			if ok {
 				r := NormRel(ps[0].Rets[0], true)
-				ok = r.B != nil && r.Op == "!=" && r.A.Op == "call" && r.A.Sym == "slices.(*Sorted).Index" && isParam(r.A.Args[1], 1) && r.B.IsConst("-1")
+				ok = false
+				if r.B != nil && r.A.Op == "call" && r.A.Sym == "slices.(*Sorted).Index" && isParam(r.A.Args[1], 1) {
+					// Index(value) != -1, or >= 0, or > -1 (Index returns -1 or a position)
+					if pl, kind, isInt := r.IntNorm(); isInt {
+						idx1 := ToPoly(r.A).Add(polyConst(1), 1)
+						ok = (kind == "!=" && pl.Equal(canonSign(idx1))) || (kind == ">" && pl.Equal(idx1))
+					}
+				}
 			}
 			R.Decide(ok, "position", fi.Name, "agrees", c.pos(fi), "Index(value) != -1", "Contains is not Index(value) != -1")
 		}
